@@ -163,7 +163,10 @@ def run_case(case):
         elif now - last_change > QUIET_S:
             ev = schedlab.read_log(logpath)
             alive, blocked = schedlab.blocked_actors(ev)
-            if alive and len(blocked) == len(alive):
+            groups = {e['q'] for e in ev if e['q'].startswith('q_in#')}
+            started = sum(1 for e in ev if e['op'] == 'start' and e['q'].startswith('proc#'))
+            # a worker that has not logged its start yet (slow fork on a loaded machine) is not "blocked"
+            if alive and len(blocked) == len(alive) and started >= case['workers'] * len(groups):
                 verdict_deadlock = 'no event for %.0fs; every live actor is blocked in get: %s' % (
                     QUIET_S, sorted('%s@%s' % (e['role'], e['q']) for e in blocked.values()))
                 break
